@@ -86,5 +86,6 @@ MuNorm(q, r)  == [q |-> q + (r \div Mega), r |-> r % Mega]
 MuOf(x)       == MuNorm(0, x)
 MuAdd(a, b)   == MuNorm(a.q + b.q, a.r + b.r)
 MuSumSeq(seq, F(_)) == FoldLeft(LAMBDA acc, x : MuAdd(acc, MuOf(F(x))), [q |-> 0, r |-> 0], seq)
+Price(size, replica, dur) == CeilDiv(size * replica * dur, Mega)
 MuLeq(a, b)   == a.q < b.q \/ (a.q = b.q /\ a.r <= b.r)
 =============================================================================
